@@ -16,7 +16,7 @@ RULE = ('(i) every clause body tree with <= N operators from , ; -> \\+ over the
         'unparenthesised body l1 op1 l2 .. opk lk+1 (k <= K, ops from , ; ->, every leaf from {z o m true} '
         'optionally prefixed by \\+) compiled as written and compared with RefProlog run on the tree obtained by '
         'an independent operator-precedence reading; (iii) deep spines: every tree with <= D operators over the leaves {o m z ! and q = a test on the variable of a two-solution goal in front of the body, so that the construct is entered twice with different outcomes} placed in ONE position (condition, then, else, either alternative, negated goal, either conjunct) of a construct whose other positions are single leaves, with a continuation goal; every tree with exactly 3 operators over two of the leaves {o z !} in each TAIL position (then, else, right alternative, right conjunct); (iv) body-local variables: every tree <= 2 [thorough 3] operators whose leaves bind variables that do not occur in the head (X = a, Y = b, m(X), true, fail), exposed by a continuation R = r(X,Y). states = distinct answer sequences; transitions = '
-        '(vi) every body with <= 2 operators containing the leaf t2(V1), a test on the variable of the first goal that fails for its first solution and succeeds for the second (whether a construct committed to the first solution of its condition shows in the answers). (v) long branches: a conjunction of 1..10 goals as then-branch, else-branch or continuation of 9 constructs whose condition has alternatives of its own (disjunction, if-then-else or negation inside the condition). '
+        '(vii) two constructs in one body: a disjunction / if-then-else with two alternatives for V1 followed by a second construct whose condition, first alternative or negated goal is a conjunction containing the test t2(V1) (480 bodies). (vi) every body with <= 2 operators containing the leaf t2(V1), a test on the variable of the first goal that fails for its first solution and succeeds for the second (whether a construct committed to the first solution of its condition shows in the answers). (v) long branches: a conjunction of 1..10 goals as then-branch, else-branch or continuation of 9 constructs whose condition has alternatives of its own (disjunction, if-then-else or negation inside the condition). '
         'next() calls on the real engine; non-trivial = at least one answer')
 ASSUMPTIONS = ['RefProlog implements the standard semantics of ; -> \\+ and cut',
                'cuts in the condition of -> or under \\+ are outside the property and skipped',
@@ -42,6 +42,7 @@ def plan(tier):
     sh += [('locals', k, 16, 2 if tier == 'quick' else 3) for k in range(16)]
     sh += [('long', k, 16) for k in range(16)]
     sh += [('tfocus', k, 16) for k in range(16)]
+    sh += [('seq', k, 16) for k in range(16)]
     if tier != 'quick':
         sh += [('spine', k, 256, 3, tier) for k in range(256)]
     return sh
@@ -70,6 +71,8 @@ def run_shard(spec):
         return run_long(spec)
     if spec[0] == 'tfocus':
         return run_tfocus(spec)
+    if spec[0] == 'seq':
+        return run_seq(spec)
     return run_prec(spec)
 
 
@@ -134,6 +137,41 @@ def _has_leaf(t, kind):
     if t[0] == 'L':
         return t[1] == kind
     return any(_has_leaf(c, kind) for c in t[1:])
+
+
+# ---- two constructs in one body -------------------------------------------------------------------
+# The continuation of a disjunction / if-then-else is compiled once per alternative: a SECOND
+# construct behind the first one is therefore compiled several times.  First construct: two
+# alternatives for V1 (1, 2); second construct: condition / first alternative / negated goal is a
+# conjunction of two goals, one of them the test t2(V1) (false for 1, true for 2).
+def seq_cases():
+    o, m, z, t = ('L', 'o'), ('L', 'm'), ('L', 'z'), ('L', 't')
+    idx = 0
+    firsts = [(';', m, o), (';', ('->', m, o), o), (';', m, m)]
+    conds = [(',', t, o), (',', o, t), (',', t, z), (',', o, o), (',', m, t)]
+    for f in firsts:
+        for c in conds:
+            for T in (m, o):
+                for E in (m, o):
+                    for second in ((';', ('->', c, T), E), ('->', c, T), (';', c, E), (',', ('\\+', c), T)):
+                        for tail in (None, m):
+                            tree = (',', f, second if tail is None else (',', second, tail))
+                            yield idx, tree
+                            idx += 1
+
+
+def run_seq(spec):
+    _, k, n = spec
+    acc = Acc()
+    for idx, tree in seq_cases():
+        if idx % n != k:
+            continue
+        case = treecheck.tree_case(tree)
+        res = case.run()
+        if res['status'] == 'violation':
+            res['sig'] = 'two-constructs:' + res['sig']
+        account(acc, ('seq', idx), case, res, key='seq|%s' % bodies.show_tree(tree))
+    return acc
 
 
 def run_long(spec):
